@@ -16,6 +16,8 @@ package message
 
 import (
 	"bytes"
+	enc "encoding/binary"
+	"io"
 	"sort"
 	"time"
 
@@ -171,6 +173,13 @@ func DecodeFrame(buf []byte) (out Frame, err error) {
 	// We need to allocate, given that the unmarshal is now no-copy. By using 'nil' as destination
 	// we make sure that the underlying buffer is calculated based on the decoded length.
 	if buf, err = snappy.Decode(nil, buf); err == nil {
+
+		// The frame starts with the number of messages and every message takes at least four
+		// bytes, make sure we do not allocate for more messages than the buffer can possibly hold.
+		if count, n := enc.Uvarint(buf); n <= 0 || count > uint64(len(buf)) {
+			return nil, io.EOF
+		}
+
 		err = binary.Unmarshal(buf, &out)
 	}
 	return
